@@ -464,8 +464,113 @@ def check(run: Run) -> None:
             if e.startswith("C11.b:"):
                 raise AnalysisError("model-mismatch", e)
 
+    with run.obligation("C01.h", "K1", "mesh_: an instance that reads another instance through mesh_ref must OUTRANK it (instances of one pass run in rank order): "
+                        "add_dependency re-ranks whenever the requester's rank is not strictly greater than its dependency's (equal ranks included: two keys of the "
+                        "key set start with the same rank), creates a missing dependency and re-ranks, and never reports the dependency available in those cases"):
+        fa = R.fn(run, "src/hgraph/runtime/mesh_node.cpp", "MeshNodeView::add_dependency")
+        roles = [Role("SAME", "bool", r"key\.equals\(depends_on\)"), Role("KNULL", "bool", r"(key_entry|.*find\(key\))==nullptr"),
+                 Role("DNULL", "bool", r"(dep_entry|.*find\(depends_on\))==nullptr"), Role("KR", "t", r"(key_entry|.*find\(key\))->rank"),
+                 Role("DR", "t", r"(dep_entry|.*find\(depends_on\))->rank")]
+
+        def spec_dep(v):
+            if v.b("SAME"):
+                return Expect(throws=True)
+            if v.b("KNULL"):
+                return Expect(calls=[], ret=False)
+            if v.b("DNULL"):
+                return Expect(calls=[("CREATE", ("anyargs",)), ("RERANK", ("anyargs",))], ret=False)
+            if v.le("KR", "DR"):
+                return Expect(calls=[("RERANK", ("anyargs",))], ret=False)
+            return Expect(calls=[], ret="unchecked")
+        R.k1(run, "C01.h", fa, roles, spec_dep, role_calls={"CREATE": r"create_instance", "RERANK": r"re_rank"}, what="mesh add_dependency")
+
+    with run.obligation("C01.i", "K4+K1", "an input without a rank dependency lets its consumer be ranked before its producer, so it may be created only where the design "
+                        "says so: the sites that build a rank-free WiringInputRef are exactly the confirmed ones (capture transports whose second input closes a "
+                        "service loop), and the computed site (higher-order operators) is rank-free ONLY for a Passive argument - evaluated over every ArgTag value"):
+        RANK_FREE_SITES = {   # enclosing function -> reason (each builds `WiringInputRef{.source = sources[1], .rank_dependency = false}` for a capture / feedback transport)
+            "hgraph::adaptor::detail::capture_input": "adaptor capture: second input is the stub the capture feeds",
+            "hgraph::boundary_detail::shared_output_relay_capture": "shared-output relay capture",
+            "hgraph::keyed_service_transport::publish_request": "request transport capture",
+            "hgraph::keyed_service_transport::publish_response": "response transport capture",
+            "hgraph::keyed_service_transport::publish_subscription_request": "subscription transport capture",
+            "hgraph::keyed_service_transport::response_feedback": "response feedback transport",
+            "hgraph::request_reply_service_call": "request/reply service call capture",
+            "hgraph::service_adaptor_client_from_graph": "service adaptor client capture",
+            "hgraph::shared_output_capture_node": "shared-output capture",
+            "hgraph::service::detail::capture_request_input": "service request capture",
+            "hgraph::service_adaptor::detail::capture_output": "service adaptor output capture",
+            "hgraph::service_adaptor::detail::capture_request_input": "service adaptor request capture",
+        }
+        tags = run.tree.enum("include/hgraph/types/graph_wiring.h", "ArgTag").enumerators
+        if "Passive" not in tags or len(tags) < 4:
+            raise AnalysisError("anchor-vanished", f"C01.i: ArgTag enumerators {tags}")
+        cn0 = R.Canon()
+        n_sites = 0
+        computed = 0
+        for rel in run.tree.all_files():
+            if not rel.startswith(("include/hgraph/", "src/hgraph/")) or "rank_dependency" not in run.tree.read(rel):
+                continue
+            fi_ = run.tree.file(rel)
+            for fd_ in fi_.funcs:
+                if fd_.body is None or "rank_dependency" not in fi_.text(fd_.body[0], fd_.body[1]):
+                    continue
+                fa_ = R.parse(run, fd_, strict=False)
+                for n_ in fa_.body.walk():
+                    if not (isinstance(n_, C.Desig) and n_.name == "rank_dependency"):
+                        continue
+                    txt = cn0(n_.value)
+                    if txt == "true" or re.fullmatch(r"\w+\.rank_dependency", txt):
+                        continue   # ranked, or a copy of an existing flag
+                    n_sites += 1
+                    run.count(1, "C01.i")
+                    if txt == "false":
+                        if fd_.qual not in RANK_FREE_SITES:
+                            run.finding("C01.i", f"{fd_.qual}:rank-free-input:unclassified", f"{fd_.qual} builds an input without a rank dependency and is not one of the "
+                                        "confirmed capture / feedback transports: its consumer can be ranked before its producer", loc=fa_.loc(n_))
+                        continue
+                    # computed flag: evaluate over every ArgTag value and every valuation of the other atoms
+                    computed += 1
+                    atoms: List[str] = []
+
+                    def ev(e, tag, val):
+                        if isinstance(e, C.Binary) and e.op in ("||", "&&"):
+                            l, r = ev(e.l, tag, val), ev(e.r, tag, val)
+                            return (l or r) if e.op == "||" else (l and r)
+                        if isinstance(e, C.Unary) and e.op == "!":
+                            return not ev(e.e, tag, val)
+                        if isinstance(e, C.Binary) and e.op in ("==", "!="):
+                            for a_, b_ in ((e.l, e.r), (e.r, e.l)):
+                                if cn0(a_).endswith("arg_tag") and isinstance(b_, C.Id) and "ArgTag::" in b_.name:
+                                    same = b_.name.split("::")[-1] == tag
+                                    return same if e.op == "==" else not same
+                        k = cn0(e)
+                        if k not in atoms:
+                            atoms.append(k)
+                        return val.get(k, False)
+                    ev(n_.value, tags[0], {})   # collect atoms
+                    if len(atoms) > 6:
+                        raise AnalysisError("model-mismatch", f"C01.i: {len(atoms)} free atoms in the rank_dependency expression of {fd_.qual}")
+                    bad = None
+                    for tag in tags:
+                        for bits in range(1 << len(atoms)):
+                            val = {a: bool(bits >> i & 1) for i, a in enumerate(atoms)}
+                            run.evaluations += 1
+                            if tag != "Passive" and not ev(n_.value, tag, val):
+                                bad = (tag, val)
+                    if bad is not None:
+                        run.finding("C01.i", f"{fd_.qual}:rank-free-for-{bad[0]}", f"{fd_.qual}: an argument tagged {bad[0]} (not Passive) gets no rank dependency "
+                                    f"({cn0(n_.value)[:160]}): the owner can be ranked before the producer of that argument", loc=fa_.loc(n_))
+        run.sites(n_sites, 13, "rank-free / computed rank_dependency initialisers")
+        if computed < 1:
+            raise AnalysisError("anchor-vanished", "C01.i: the computed rank_dependency of higher_order_input_refs was not found")
+
 
 VARIANTS = [
+    {"id": "i-pass-through-args-rank-free", "expect": "C01.i", "edits": [{"file": "include/hgraph/lib/std/operators/impl/higher_order_impl.h", "find": "                        inputs[index].arg_tag != WiringPortRef::ArgTag::Passive ||", "replace": "                        inputs[index].arg_tag == WiringPortRef::ArgTag::None ||"}]},
+    {"id": "i-new-rank-free-site", "expect": "C01.i", "edits": [{"file": "include/hgraph/lib/std/operators/impl/higher_order_impl.h", "find": "                refs.push_back(WiringInputRef{\n                    .source = inputs[index],", "replace": "                if (index == 1) { refs.push_back(WiringInputRef{.source = inputs[index], .rank_dependency = false}); continue; }\n                refs.push_back(WiringInputRef{\n                    .source = inputs[index],"}]},
+    {"id": "i-twin-enumerated-tags", "expect": None, "edits": [{"file": "include/hgraph/lib/std/operators/impl/higher_order_impl.h", "find": "                        inputs[index].arg_tag != WiringPortRef::ArgTag::Passive ||", "replace": "                        inputs[index].arg_tag == WiringPortRef::ArgTag::None || inputs[index].arg_tag == WiringPortRef::ArgTag::PassThrough ||\n                        inputs[index].arg_tag == WiringPortRef::ArgTag::NoKey ||"}]},
+    {"id": "h-mesh-equal-rank-not-reranked", "expect": "C01.h", "edits": [{"file": "src/hgraph/runtime/mesh_node.cpp", "find": "  if (key_entry->rank <= dep_entry->rank) {", "replace": "  if (key_entry->rank < dep_entry->rank) {"}]},
+    {"id": "h-twin-rank-test-flipped", "expect": None, "edits": [{"file": "src/hgraph/runtime/mesh_node.cpp", "find": "  if (key_entry->rank <= dep_entry->rank) {", "replace": "  if (!(key_entry->rank > dep_entry->rank)) {"}]},
     {"id": "g-reduce-words-drained-forward", "expect": "C01.g", "edits": [{"file": "src/hgraph/runtime/reduce_node.cpp", "find": "for (std::size_t word_index = candidates.word_count(); word_index-- > 0;)", "replace": "for (std::size_t word_index = 0; word_index < candidates.word_count(); ++word_index)"}]},
     {"id": "d2-revert-fix-failed-cycle-resumed", "expect": "C01.d2", "edits": [{"file": GRAPH, "find": "      !state.evaluation_failed && state.evaluation_cursor != 0 &&\n      state.evaluation_cursor != invalid_cursor;", "replace": "      state.evaluation_cursor != 0 && state.evaluation_cursor != invalid_cursor;"}]},
     {"id": "d2-flag-cleared-before-read", "expect": "C01.d2", "edits": [{"file": GRAPH, "find": "  const bool resuming =\n      !state.evaluation_failed && state.evaluation_cursor != 0 &&\n      state.evaluation_cursor != invalid_cursor;\n\n  state.evaluation_time = evaluation_time;\n  state.evaluation_failed = false;", "replace": "  state.evaluation_failed = false;\n  const bool resuming =\n      !state.evaluation_failed && state.evaluation_cursor != 0 &&\n      state.evaluation_cursor != invalid_cursor;\n\n  state.evaluation_time = evaluation_time;"}]},
